@@ -80,7 +80,7 @@ func TestWorker(t *testing.T) {
 		t.Skip("worker mode only")
 	}
 	// address-space cap: an exploding enumeration must kill the worker, not the sandbox
-	lim := uint64(envInt("VWORKER_AS_GB", 12)) << 30
+	lim := uint64(envInt("VWORKER_AS_GB", 6)) << 30
 	_ = syscall.Setrlimit(syscall.RLIMIT_AS, &syscall.Rlimit{Cur: lim, Max: lim})
 	workerInit()
 	out := os.NewFile(3, "results")
@@ -147,6 +147,7 @@ type worker struct {
 type Pool struct {
 	N       int
 	Env     []string
+	Timeout time.Duration // per job wall-clock cap (a hung worker is killed; the job gets a Crash result "timeout")
 	Crashes int
 	Jobs    int
 	mu      sync.Mutex
@@ -255,7 +256,34 @@ func (p *Pool) Run(initial []Job, onResult func(j Job, r JobResult) []Job) {
 						r = JobResult{ID: j.ID, Crash: "worker unusable: " + err.Error()}
 						break
 					}
-					line, err := w.res.ReadBytes('\n')
+					type rd struct {
+						line []byte
+						err  error
+					}
+					rc := make(chan rd, 1)
+					go func(w *worker) { l, e := w.res.ReadBytes('\n'); rc <- rd{l, e} }(w)
+					to := p.Timeout
+					if to <= 0 {
+						to = 30 * time.Minute
+					}
+					var line []byte
+					var err error
+					timedOut := false
+					select {
+					case x := <-rc:
+						line, err = x.line, x.err
+					case <-time.After(to):
+						timedOut = true
+					}
+					if timedOut {
+						w.stop()
+						w = nil
+						r = JobResult{ID: j.ID, Crash: fmt.Sprintf("timeout: no result after %v", to)}
+						p.mu.Lock()
+						p.Crashes++
+						p.mu.Unlock()
+						break
+					}
 					if err != nil || len(line) == 0 {
 						logtail := tailFile(w.logf, 6000)
 						w.stop()
